@@ -100,7 +100,9 @@ def check(case) -> core.Out:
         if mine != theirs:
             out.viol.append((f"{PROP}|protocol-disagrees", f"protocol({raw[:8].hex()}) = {theirs}, classifier {mine}"))
             return out
-    for F in range(8):
+    # the 8 masks, and masks that carry further bits (an application sharing the word with
+    # flags of its own): only the three protocol bits decide
+    for F in list(range(8)) + [8, 8 | (len(data) % 8), 64 | (1 << (len(data) % 3)), 0xF8 | ((len(data) // 3) % 8)]:
         n += 1
         try:
             got, exc = run(data, dict(opts, protfilter=F, parsing=True))
